@@ -4,6 +4,7 @@ package main
 
 import (
 	"fmt"
+	"os"
 	"go/token"
 	"go/types"
 	"sort"
@@ -137,6 +138,7 @@ type Enc struct {
 	tinvSeen map[string]bool
 	nseq     int
 	explicitAssumes map[string]bool
+	thisfn   string
 }
 
 func newEnc(m *Model, fn *ssa.Function, c *Contract) *Enc {
@@ -749,6 +751,7 @@ func (e *Enc) runFunc(fc *fctx, guard string, st *State) []retInfo {
 			case *ssa.Return:
 				var vs []Val
 				for _, r := range x.Results {
+					e.publishCheck(cur, r, x.Pos(), "returned")
 					vs = append(vs, e.value(fc, r))
 				}
 				rets = append(rets, retInfo{cur.guard, cur.st, vs})
@@ -848,6 +851,13 @@ func (e *Enc) loopHead(fc *fctx, l *loopInfo, guard string, st *State) (string, 
 			}
 		}
 	}
+	// 2a. a local slice that is only ever assigned make(...) or append(itself, ...) lives in storage
+	// allocated by this function: its backing array is fresh at every loop head (by construction)
+	for a := range eff.locals {
+		if cur, ok := ns.loc[a]; ok && e.selfGrownSlice(fc.fn, a) {
+			e.assume(guard, fmt.Sprintf("(or (= (sl_base %s) Nil) (>= (rootid (sl_base %s)) $alloc@in))", cur, cur))
+		}
+	}
 	// 2b. compiler-generated range index: -1 <= rangeindex <= bound-1 holds by construction of
 	// range-over-slice/string-index loops (the hidden index is assigned only by the loop header)
 	e.rangeIndexFacts(fc, l, guard, ns)
@@ -858,6 +868,73 @@ func (e *Enc) loopHead(fc *fctx, l *loopInfo, guard string, st *State) (string, 
 	}
 	e.smoke(guard, fmt.Sprintf("%sL%d.head", fc.tag, l.idx))
 	return guard, ns
+}
+
+func (e *Enc) selfGrownSlice(fn *ssa.Function, a *ssa.Alloc) bool {
+	if os.Getenv("GOVC_DEBUG") != "" {
+		fmt.Fprintf(os.Stderr, "selfGrown? %s heap=%v type=%s\n", a.Comment, a.Heap, a.Type())
+	}
+	if a.Heap {
+		return false
+	}
+	if _, ok := a.Type().(*types.Pointer).Elem().Underlying().(*types.Slice); !ok {
+		return false
+	}
+	if fn != a.Parent() {
+		return false
+	}
+	n := 0
+	for _, b := range fn.Blocks {
+		for _, ins := range b.Instrs {
+			st, ok := ins.(*ssa.Store)
+			if !ok || st.Addr != a {
+				continue
+			}
+			n++
+			switch v := st.Val.(type) {
+			case *ssa.MakeSlice:
+			case *ssa.Slice:
+				// make([]T, const) is compiled to new [const]T + slice
+				if al, ok := v.X.(*ssa.Alloc); !ok || !al.Heap {
+					return false
+				}
+			case *ssa.Const:
+				if v.Value != nil {
+					return false
+				}
+			case *ssa.Call:
+				b, ok := v.Call.Value.(*ssa.Builtin)
+				if !ok || b.Name() != "append" {
+					return false
+				}
+				ld, ok := v.Call.Args[0].(*ssa.UnOp)
+				if !ok || ld.X != a {
+					return false
+				}
+			default:
+				return false
+			}
+		}
+	}
+	// every other use must be a plain load (the address must not escape)
+	if os.Getenv("GOVC_DEBUG") != "" {
+		fmt.Fprintf(os.Stderr, "selfGrown %s: stores=%d refs=%d\n", a.Comment, n, len(*a.Referrers()))
+		for _, ref := range *a.Referrers() {
+			fmt.Fprintf(os.Stderr, "   ref %T %s\n", ref, ref)
+		}
+	}
+	for _, ref := range *a.Referrers() {
+		switch r := ref.(type) {
+		case *ssa.Store:
+			if r.Addr != a {
+				return false
+			}
+		case *ssa.UnOp, *ssa.DebugRef:
+		default:
+			return false
+		}
+	}
+	return n > 0
 }
 
 func (e *Enc) rangeIndexFacts(fc *fctx, l *loopInfo, guard string, st *State) {
